@@ -90,9 +90,6 @@ func (s *sys) apply(ev string) applied {
 	a := applied{ev: ev}
 	s.curEvent = ev
 	s.resend = nil
-	if s.step == 0 && ev != "MAPREV" {
-		mapDesc = false // every execution starts in ascending order
-	}
 	s.replayJump = false
 	parts := strings.Split(ev, ":")
 	switch parts[0] {
